@@ -1436,6 +1436,17 @@ func (a *Agent) createRelayCandidate(ctx context.Context, ep relayEndpoint, ip n
 		return err
 	}
 
+	// The family of the relayed address is only known now: do not publish a relay candidate
+	// whose network type is not enabled.
+	if !networkTypeEnabled(configuredNetworkTypes(a.networkTypes), candidate.NetworkType()) {
+		if closeErr := candidate.close(); closeErr != nil {
+			a.log.Warnf("Failed to close candidate: %v", closeErr)
+		}
+		a.log.Warnf("relay candidate %s %d has a disabled network type %s", ip, ep.port, candidate.NetworkType())
+
+		return ErrUnknownType
+	}
+
 	if err := a.addCandidate(ctx, candidate, ep.conn); err != nil {
 		if closeErr := candidate.close(); closeErr != nil {
 			a.log.Warnf("Failed to close candidate: %v", closeErr)
